@@ -39,8 +39,8 @@ func (*c28) ID() string { return "C28" }
 func (*c28) Rule() string {
 	return "(1) programs that parse in any of the five variants (repo corpus, grammar generator with all variant masks, structure/byte mutants, argument mutants of the repo's interpreter tests) run by interp.Runner with external commands refused, file access confined to a scratch directory, stdin empty/short/binary and a 2 s context; (2) builtin storms: sequences of builtins (shift getopts break continue return exit read mapfile wait unset set shopt trap cd pushd popd printf test [ type command eval alias unalias declare local let export readonly echo source) called with random argument vectors from a hostile dictionary, interleaved with changes of $@ / OPTIND / IFS; (3) option vectors for interp.New / Params (nil Env, missing Dir, nil writers, -o without value, unknown flags, both exec handler kinds separately). Oracle: recover() around New, Params, Run and Reset catches panics; a dying worker (panic in a goroutine the monitor does not own, fatal runtime error) is attributed to the journalled case and is a violation. Run ignoring its cancelled context is inconclusive here (C31's business). Non-trivial: the program has >= 2 statements or is a builtin storm; distinct: hash of the case."
 }
-func (*c28) NumCases(tier string) int      { return tierN(tier, 8000, 600000) }
-func (*c28) MinNontrivial(tier string) int { return tierN(tier, 3000, 200000) }
+func (*c28) NumCases(tier string) int      { return tierN(tier, 8000, 300000) }
+func (*c28) MinNontrivial(tier string) int { return tierN(tier, 3000, 100000) }
 func (*c28) New() any                      { return &PanicCase{} }
 func (*c28) CrashIsViolation() bool        { return true }
 func (*c28) CaseTimeout() time.Duration    { return 60 * time.Second }
